@@ -19,34 +19,16 @@ a set of cells.  Well-formed = the regions are non-empty and partition the board
 READING: rule 5 on a board without numbered cells does not arise: every region holds a number (rule 3) and a well-formed
 h x w board with h, w >= 1 has a region.  (The library's convention "no active vertex = connected" is never exercised.)
 
-ENVIRONMENT DEFECT (reported): cspuz/puzzle/nanro.py does an unconditional `import numpy` (not a declared dependency, not
-installed in this sandbox; `solve_nanro` never uses it, star_battle.py guards the same import with try/except), so the module
-cannot be imported.  `_ensure_importable` below installs an EMPTY stand-in module named `numpy` in `sys.modules` only if the
-real import fails, so that `solve_nanro` itself can be checked; `NUMPY_STUBBED` records that this happened.
+Fixed defect (fa1ef10): the module used to `import numpy` unconditionally (not a declared dependency, not installed here), so
+`cspuz.puzzle.nanro` could not be imported although `solve_nanro` never uses numpy; the import is now guarded.
 """
 import itertools
-import sys
-import types
-
-NUMPY_STUBBED = False
-
-
-def _ensure_importable():
-    global NUMPY_STUBBED
-    try:
-        import numpy  # noqa: F401
-    except ImportError:
-        sys.modules["numpy"] = types.ModuleType("numpy")
-        NUMPY_STUBBED = True
-
-
-_ensure_importable()
 
 NAME = "nanro"
-STATUS = "differential only"
+STATUS = "model+differential"
 THEOREMS = []
 LEAN_FILE = None
-LEAN_CMD = None
+LEAN_CMD = "puz_nanro"
 
 _SHAPES = [(1, 1), (1, 2), (2, 1), (1, 3), (3, 1), (1, 4), (4, 1), (1, 5), (5, 1), (2, 2), (2, 3), (3, 2), (2, 4), (4, 2), (3, 3),
            (3, 4), (4, 3)]
